@@ -88,7 +88,9 @@ def extract(M, net, num=float):
                     "eq": (o.flow_eq_type if kind in ("ramp", "simple") else None),
                 }
             )
-            if kind == "ideal" and getattr(o, "_vf_user", False):  # user-defined boundary origin (vf/userkinds.py)
+            if kind == "main" and getattr(o, "_vf_user", False) and hasattr(o, "cap"):  # user kind derived from the mainstream origin
+                desc["origins"][-1]["user_cap_flow"] = (num(o.cap) if o.cap is not None else None)
+            if kind == "ideal" and getattr(o, "_vf_user", False) and hasattr(o, "flow"):  # user-defined boundary origin (vf/userkinds.py)
                 desc["origins"][-1]["user"] = True
                 desc["origins"][-1]["user_q"] = (num(o.flow) if o.flow is not None else None)
                 desc["origins"][-1]["user_v"] = (num(o.speed) if o.speed is not None else None)
